@@ -211,7 +211,8 @@ def run(ctx):
                 # options that change the head of the generated module (where the module's own coding comment must stay first)
                 opt_i = (list(CODECS).index(codec) + ["comment", "known", "bom", "none"].index(decl)) % 3
                 kw.update([{}, {"future_imports": ["annotations"]}, {"imports": ["import os"], "future_imports": ["annotations"]}][opt_i])
-                fn = os.path.join(workdir, "t_%s_%s.mako" % (codec.replace("-", "_"), decl))
+                # every third template file has a name with characters that most of these codecs lack
+                fn = os.path.join(workdir, "%s_%s_%s.mako" % ("\u0448\u0430\u0431\u043b\u043e\u043d" if opt_i == 2 else "t", codec.replace("-", "_"), decl))
                 with open(fn, "wb") as f:
                     f.write(data)
                 moddir = os.path.join(workdir, "mod_%s_%s" % (codec.replace("-", "_"), decl))
